@@ -47,8 +47,10 @@ ND_FUNCS = {"nd_int", "nd_uint", "nd_uchar", "nd_ulong", "nd_long", "nd_bool", "
 
 # --pointer-overflow-check is opt-in per unit ("flags"): it treats NULL + 0 as a fatal
 # failure, which the code does on every empty slice (excluded class, DESIGN sec. 9 item 6).
+# --conversion-check is not used: it flags implicit signed->unsigned conversions, which are
+# defined behaviour in C (e.g. the `index < size` test of set_dimension with a negative index).
 DEFAULT_CBMC_FLAGS = [
-    "--bounds-check", "--pointer-check", "--div-by-zero-check", "--conversion-check",
+    "--bounds-check", "--pointer-check", "--div-by-zero-check",
 ]
 
 
@@ -294,6 +296,19 @@ def build_unit(unit, workdir, want_trace_for=None):
     if r["rc"] != 0:
         raise Tooling("goto-cc failed for %s:\n%s" % (unit["name"], r["err"][-3000:]))
     cur = a
+    if unit.get("replace_calls"):
+        # calls to a function of the real file are redirected to a stub contract written in
+        # the harness (C body: assert requires, havoc assigns, assume/establish ensures)
+        b = os.path.join(workdir, "rc.gb")
+        cmd = ["goto-instrument"]
+        for rc in unit["replace_calls"]:
+            cmd += ["--replace-calls", rc]
+        cmd += [cur, b]
+        r = run(cmd, 300)
+        info["steps"].append(" ".join(cmd))
+        if r["rc"] != 0:
+            raise Tooling("replace-calls failed: " + (r["out"] + r["err"])[-2000:])
+        cur = b
     if unit["preunwind"]:
         b = os.path.join(workdir, "pre.gb")
         cmd = ["goto-instrument", "--unwindset", ",".join(unit["preunwind"]), "--unwinding-assertions", cur, b]
@@ -328,7 +343,11 @@ def build_unit(unit, workdir, want_trace_for=None):
 
 
 def cbmc_cmd(unit, gb, trace=False, props=None):
-    cmd = ["cbmc", gb, "--json-ui"]
+    # Status run: plain text UI.  --json-ui always embeds a trace for every failed property
+    # (the must-fail covers included) and was observed to take >15 min where the text UI
+    # takes 3 s (symbolic-size arrays are printed element-wise).  JSON is used only for the
+    # trace of genuinely failed obligations, restricted with --property.
+    cmd = ["cbmc", gb] + (["--json-ui"] if trace else [])
     if not unit["no_default_flags"]:
         cmd += [f for f in DEFAULT_CBMC_FLAGS if not (unit.get("no_pointer_check") and f == "--pointer-check")]
     if unit.get("no_pointer_check"):
@@ -347,6 +366,39 @@ def cbmc_cmd(unit, gb, trace=False, props=None):
     for p in props or []:
         cmd += ["--property", p]
     return cmd
+
+
+TEXT_RES = re.compile(r"^\[(\S+)\] line (\d+) (.*): (SUCCESS|FAILURE|UNKNOWN|ERROR)$")
+TEXT_HDR = re.compile(r"^(\S.*) function (\S+)$")
+
+
+def parse_cbmc_text(path):
+    results = []
+    fn = fl = None
+    seen_results = False
+    tail = []
+    for ln in open(path, errors="replace"):
+        ln = ln.rstrip("\n")
+        tail.append(ln)
+        if len(tail) > 40:
+            tail.pop(0)
+        if ln.startswith("** Results:"):
+            seen_results = True
+            continue
+        if not seen_results:
+            continue
+        m = TEXT_RES.match(ln)
+        if m:
+            results.append({"property": m.group(1), "description": m.group(3), "status": m.group(4),
+                            "sourceLocation": {"line": m.group(2), "file": fl, "function": fn}})
+            continue
+        h = TEXT_HDR.match(ln)
+        if h:
+            fl, fn = h.group(1), h.group(2)
+    done = any(t.startswith("VERIFICATION ") for t in tail)
+    if not seen_results or not done:
+        return None, "\n".join(tail)
+    return results, "\n".join(tail)
 
 
 def parse_cbmc(path):
@@ -437,16 +489,17 @@ def verify_unit(unit, use_cache=True):
         ctags = contract_tags(unit, workdir)
         if unit.get("enforce") and unit["enforce"] not in ctags:
             raise Tooling("no tagged contract found for enforced function " + unit["enforce"])
-        outp = os.path.join(workdir, "out.json")
+        outp = os.path.join(workdir, "out.txt")
         cmd = cbmc_cmd(unit, gb)
         res["pipeline"].append(" ".join(cmd))
         r = run(cmd, unit["timeout"], unit["mem_gb"], stdout_path=outp)
         res["solver_s"] = round(r["wall"], 2)
         if r["timeout"]:
             raise Tooling("cbmc timeout after %ss" % unit["timeout"])
-        results, msgs = parse_cbmc(outp)
+        results, msgs = parse_cbmc_text(outp)
         if results is None:
             raise Tooling("cbmc produced no result list (rc=%s): %s %s" % (r["rc"], msgs[-1500:], r["err"][-500:]))
+        msgs = open(outp, errors="replace").read() if os.path.getsize(outp) < (64 << 20) else msgs
         if "ignoring" in msgs and "forall" in msgs:
             raise Tooling("quantifier ignored by back end")
         obs = classify(unit, results, ctags)
